@@ -167,6 +167,9 @@ class ResolutionContext:
                     field_def = TYPE_INTROSPECTION_FIELD
                 elif name == "__typename":
                     field_def = TYPE_NAME_INTROSPECTION_FIELD
+                else:
+                    # `__schema` and `__type` only exist on the query type.
+                    field_def = None
             else:
                 field_def = parent_type.field_map.get(name, None)
 
